@@ -1,9 +1,303 @@
-"""Translator: regenerates lean/LPVerif/Generated/*.lean from the tree (DESIGN §3.2)."""
+"""Translator: regenerates lean/LPVerif/Generated/*.lean from the tree (DESIGN §3.2).
+
+It serialises, it does not reason: literal tables are copied, a handful of small functions are
+transliterated statement by statement into pure Lean terms over LPVerif.Prelude, control skeletons are
+dumped as data.  Anything outside the supported subset becomes `unsupported "<source text>"`, which makes
+the bridge lemmas fail (and the check then searches for a failing input).
+"""
+import ast
 import os
+import re
+import textwrap
+
 from common import LEAN_DIR, REPO
 
 GEN_DIR = os.path.join(LEAN_DIR, 'LPVerif', 'Generated')
-GENERATORS = []   # (filename, function returning text)
+IND = '  '
+
+
+def src_of(rel):
+    with open(os.path.join(REPO, rel)) as fh:
+        return fh.read()
+
+
+def find_func(tree, name, cls=None):
+    for node in ast.walk(tree):
+        if cls and isinstance(node, ast.ClassDef) and node.name == cls:
+            for sub in node.body:
+                if isinstance(sub, (ast.FunctionDef, ast.AsyncFunctionDef)) and sub.name == name:
+                    return sub
+        if not cls and isinstance(node, (ast.FunctionDef, ast.AsyncFunctionDef)) and node.name == name:
+            return node
+    return None
+
+
+def lean_str(s):
+    return '"' + s.replace('\\', '\\\\').replace('"', '\\"').replace('\n', '\\n') + '"'
+
+
+class Unsupported(Exception):
+    pass
+
+
+class Emitter:
+    """Python function (restricted subset) -> pure Lean term in `Except PyErr`, continuation-passing over
+    statement lists (early return -> Except.ok, raise -> Except.error, try/index/except ValueError -> match)."""
+
+    def __init__(self, self_name, gen_name, local_types=None, overrides=None, stmt_overrides=None, rec_args=None):
+        self.self_name = self_name
+        self.gen_name = gen_name
+        self.local_types = local_types or {}
+        self.overrides = overrides or {}
+        self.stmt_overrides = stmt_overrides or {}
+        self.rec_args = rec_args
+
+    def expr(self, e):
+        txt = ast.unparse(e)
+        if txt in self.overrides:
+            return self.overrides[txt]
+        if isinstance(e, ast.Name):
+            return e.id
+        if isinstance(e, ast.Constant):
+            if e.value is None:
+                return 'none'
+            if isinstance(e.value, str):
+                return lean_str(e.value)
+            if isinstance(e.value, bool):
+                return 'true' if e.value else 'false'
+            if isinstance(e.value, int):
+                return str(e.value)
+        if isinstance(e, ast.List):
+            parts, cur = [], []
+            for el in e.elts:
+                if isinstance(el, ast.Starred):
+                    if cur:
+                        parts.append('[' + ', '.join(cur) + ']')
+                        cur = []
+                    parts.append(self.expr(el.value))
+                else:
+                    cur.append(self.expr(el))
+            if cur or not parts:
+                parts.append('[' + ', '.join(cur) + ']')
+            return '(' + ' ++ '.join(parts) + ')' if len(parts) > 1 else parts[0]
+        if isinstance(e, ast.Tuple):
+            return '(' + ', '.join(self.expr(x) for x in e.elts) + ')'
+        if isinstance(e, ast.BinOp) and isinstance(e.op, ast.Add):
+            l, r = e.left, e.right
+            op = '++' if isinstance(r, ast.List) or isinstance(l, ast.List) else '+'
+            return '(%s %s %s)' % (self.expr(l), op, self.expr(r))
+        if isinstance(e, ast.BinOp) and isinstance(e.op, ast.Sub):
+            return '(%s - %s)' % (self.expr(e.left), self.expr(e.right))
+        if isinstance(e, ast.Subscript):
+            if isinstance(e.slice, ast.Slice):
+                if e.slice.step is not None:
+                    raise Unsupported(txt)
+                up = e.slice.upper
+                if e.slice.lower is None and isinstance(up, ast.UnaryOp) and isinstance(up.op, ast.USub):
+                    return '(pyDropLastN %s %s)' % (self.expr(e.value), self.expr(up.operand))
+                lo = 'none' if e.slice.lower is None else '(some %s)' % self.expr(e.slice.lower)
+                hi = 'none' if up is None else '(some %s)' % self.expr(up)
+                return '(pySlice %s %s %s)' % (self.expr(e.value), lo, hi)
+            return '(pyGet %s %s)' % (self.expr(e.value), self.expr(e.slice))
+        if isinstance(e, ast.Call) and isinstance(e.func, ast.Name) and e.func.id == 'list' and len(e.args) == 1:
+            return self.expr(e.args[0])
+        if isinstance(e, ast.Call) and isinstance(e.func, ast.Name) and e.func.id == 'len' and len(e.args) == 1:
+            return '(List.length %s)' % self.expr(e.args[0])
+        if isinstance(e, ast.Compare) and len(e.ops) == 1:
+            l, r = self.expr(e.left), self.expr(e.comparators[0])
+            if isinstance(e.ops[0], (ast.Is, ast.Eq)):
+                return '(%s = %s)' % (l, r)
+            if isinstance(e.ops[0], (ast.IsNot, ast.NotEq)):
+                return '(%s ≠ %s)' % (l, r)
+            if isinstance(e.ops[0], ast.Gt):
+                return '(%s > %s)' % (l, r)
+        if isinstance(e, ast.UnaryOp) and isinstance(e.op, ast.Not):
+            return '(pyFalsy %s)' % self.expr(e.operand)
+        raise Unsupported(txt)
+
+    @staticmethod
+    def is_index_try(s):
+        return (isinstance(s, ast.Try) and len(s.body) == 1 and isinstance(s.body[0], ast.Assign)
+                and isinstance(s.body[0].value, ast.Call) and isinstance(s.body[0].value.func, ast.Attribute)
+                and s.body[0].value.func.attr == 'index' and len(s.handlers) == 1
+                and getattr(s.handlers[0].type, 'id', None) == 'ValueError' and not s.finalbody)
+
+    def stmts(self, body, d):
+        if not body:
+            return IND * d + 'Except.error PyErr.fellOff'
+        s, rest = body[0], body[1:]
+        pad = IND * d
+        txt = ast.unparse(s)
+        if txt in self.stmt_overrides:
+            ov = self.stmt_overrides[txt]
+            if ov.startswith('RETURN '):
+                return pad + ov[7:]
+            return pad + ov + '\n' + self.stmts(rest, d)
+        if isinstance(s, ast.Expr) and isinstance(s.value, ast.Constant):
+            return self.stmts(rest, d)      # docstring
+        if isinstance(s, ast.Pass):
+            return self.stmts(rest, d)
+        if isinstance(s, ast.Return):
+            return pad + 'Except.ok ' + self.expr(s.value)
+        if isinstance(s, ast.Raise) and isinstance(s.exc, ast.Call) and isinstance(s.exc.func, ast.Name):
+            return pad + 'Except.error PyErr.' + s.exc.func.id
+        if isinstance(s, ast.Assert):
+            return (pad + 'if %s then\n' % self.expr(s.test) + self.stmts(rest, d + 1) + '\n' + pad
+                    + 'else Except.error PyErr.AssertionError')
+        if isinstance(s, ast.Assign) and len(s.targets) == 1:
+            t = s.targets[0]
+            if isinstance(t, ast.Subscript) and isinstance(t.slice, ast.Slice) and t.slice.lower is None \
+                    and t.slice.upper is None:
+                t = t.value            # pre[:] = X   ==>  pre := X
+            if isinstance(t, ast.Tuple) and isinstance(s.value, ast.Call) and getattr(s.value.func, 'id', None) == self.self_name:
+                args = [self.expr(a) for a in s.value.args]
+                if self.rec_args:
+                    args = args + self.rec_args[len(args):]
+                names = ', '.join(x.id for x in t.elts)
+                return (pad + 'match %s fuel %s with\n' % (self.gen_name, ' '.join(args)) + pad + '| Except.error e => Except.error e\n'
+                        + pad + '| Except.ok (%s) =>\n' % names + self.stmts(rest, d + 1))
+            if not isinstance(t, ast.Name):
+                raise Unsupported(txt)
+            ty = self.local_types.get(t.id)
+            ann = ' : %s' % ty if ty else ''
+            return pad + 'let %s%s := %s\n' % (t.id, ann, self.expr(s.value)) + self.stmts(rest, d)
+        if self.is_index_try(s):
+            a = s.body[0]
+            v = a.targets[0].id
+            seq, x = self.expr(a.value.func.value), self.expr(a.value.args[0])
+            return (pad + 'match pyIndex %s %s with\n' % (seq, x) + pad + '| none =>\n'
+                    + self.stmts(s.handlers[0].body + rest, d + 1) + '\n'
+                    + pad + '| some %s =>\n' % v + self.stmts(s.orelse + rest, d + 1))
+        if isinstance(s, ast.If):
+            return (pad + 'if %s then\n' % self.expr(s.test) + self.stmts(s.body + rest, d + 1) + '\n' + pad + 'else\n'
+                    + self.stmts(s.orelse + rest, d + 1))
+        raise Unsupported(txt)
+
+
+def emit_pre_parse():
+    tree = ast.parse(src_of('kernprof.py'))
+    fn = find_func(tree, 'pre_parse_single_arg_directive')
+    head = ('-- generated from kernprof.py:%s `pre_parse_single_arg_directive` -- do not edit\n' % (fn.lineno if fn else '?')
+            + 'def pre_parse_gen : Nat → List String → String → String → Except PyErr (List String × Option String × List String)\n'
+            + '  | 0, _, _, _ => Except.error PyErr.fuel\n')
+    if fn is None:
+        return head + '  | _ + 1, _, _, _ => Except.error PyErr.unsupported  -- function not found\n'
+    params = [a.arg for a in fn.args.args]
+    if params != ['args', 'flag', 'sep']:
+        return head + '  | _ + 1, _, _, _ => Except.error PyErr.unsupported  -- unexpected signature %s\n' % params
+    em = Emitter('pre_parse_single_arg_directive', 'pre_parse_gen',
+                 local_types={'pre': 'List String', 'post': 'List String'}, rec_args=['', '', 'sep'])
+    try:
+        body = em.stmts(fn.body, 2)
+    except Unsupported as e:
+        return head + '  | _ + 1, _, _, _ => Except.error PyErr.unsupported  -- unsupported: %s\n' % str(e).replace('\n', ' ')[:200]
+    return head + '  | fuel + 1, %s =>\n' % ', '.join(params) + body + '\n'
+
+
+def emit_get_module():
+    tree = ast.parse(src_of('line_profiler/autoprofile/run_module.py'))
+    fn = find_func(tree, 'get_module_from_importfrom')
+    head = ('-- generated from line_profiler/autoprofile/run_module.py:%s `get_module_from_importfrom` -- do not edit\n'
+            '-- component level: `module.split(\'.\')` is the parameter `module_parts`, `\'.\'.join(x)` is `x`,\n'
+            '-- `node.module` (a dotted name or None) is one opaque component\n' % (fn.lineno if fn else '?')
+            + 'def get_module_gen (level : Nat) (node_module : Option String) (module_parts : List String) : Except PyErr (List String) :=\n')
+    if fn is None or [a.arg for a in fn.args.args] != ['node', 'module']:
+        return head + '  Except.error PyErr.unsupported\n'
+    em = Emitter('get_module_from_importfrom', 'get_module_gen',
+                 overrides={'node.level': 'level', 'node.module': 'node_module.isSome', "module.split('.')": 'module_parts',
+                            "'.'.join(chunks)": 'chunks', 'not level': '(level = 0)'},
+                 stmt_overrides={'return node.module': 'RETURN Except.ok (Option.toList node_module)',
+                                 'chunks.append(node.module)': 'let chunks := chunks ++ Option.toList node_module',
+                                 'level = node.level': 'let level := level'})
+    try:
+        body = em.stmts(fn.body, 1)
+    except Unsupported as e:
+        return head + '  Except.error PyErr.unsupported  -- unsupported: %s\n' % str(e).replace('\n', ' ')[:200]
+    return head + body + '\n'
+
+
+GEN_HEAD = ('import LPVerif.Prelude\n/-! Transliteration emitted by tools/extract.py from the tree — regenerated on every run. -/\n'
+            'namespace LPVerif.Generated\nopen LPVerif.Py\n\n')
+
+
+def gen_pre_parse():
+    return GEN_HEAD + emit_pre_parse() + '\nend LPVerif.Generated\n'
+
+
+def gen_get_module():
+    return GEN_HEAD + emit_get_module() + '\nend LPVerif.Generated\n'
+
+
+# ----------------------------------------------------------------------------- tables
+def kernprof_option_table():
+    """(short, long, kind) for every add_argument of kernprof's option loop"""
+    tree = ast.parse(src_of('kernprof.py'))
+    fn = find_func(tree, 'main')
+    rows = []
+    seen = set()
+    for node in ast.walk(fn):
+        if isinstance(node, ast.Call) and isinstance(node.func, ast.Attribute) and node.func.attr == 'add_argument':
+            names = [a.value for a in node.args if isinstance(a, ast.Constant) and isinstance(a.value, str)]
+            if not names or not names[0].startswith('-'):
+                continue
+            kw = {k.arg: k.value for k in node.keywords}
+            action = kw['action'].value if 'action' in kw and isinstance(kw['action'], ast.Constant) else None
+            nargs = kw['nargs'].value if 'nargs' in kw and isinstance(kw['nargs'], ast.Constant) else None
+            if action == 'store_true':
+                kind = 'flag'
+            elif action == 'version':
+                kind = 'version'
+            elif action is None or action == 'append' or action == 'store':
+                kind = 'optInt' if nargs == '?' else 'value'
+            else:
+                kind = 'help'
+            short = next((n for n in names if not n.startswith('--')), '')
+            long_ = next((n for n in names if n.startswith('--')), '')
+            if long_ == '--help':
+                kind = 'help'
+            if (short, long_) in seen:
+                continue
+            seen.add((short, long_))
+            rows.append((short, long_, kind))
+    return rows
+
+
+def literal_of(rel, name, cls_attr=None):
+    tree = ast.parse(src_of(rel))
+    for node in ast.walk(tree):
+        if isinstance(node, ast.Assign) and len(node.targets) == 1:
+            t = node.targets[0]
+            if isinstance(t, ast.Name) and t.id == name:
+                return ast.literal_eval(node.value)
+    return None
+
+
+def gen_kernprof_options():
+    out = ['import LPVerif.Model.Argv', '/-! Literal table copied from the tree by tools/extract.py — regenerated on every run. -/',
+           'namespace LPVerif.Generated', 'open LPVerif.Argv', '']
+    out.append('/-- kernprof.py: every `parser.add_argument(...)` option -/')
+    rows = kernprof_option_table()
+    out.append('def kernprofOptions : List OptSpec := [')
+    out.append(',\n'.join('  ⟨%s, %s, .%s⟩' % (lean_str(s), lean_str(l), k) for s, l, k in rows))
+    out.append(']')
+    out.append('')
+    out.append('end LPVerif.Generated')
+    return '\n'.join(out) + '\n'
+
+
+def gen_explicit_tables():
+    out = ['/-! Literal tables copied from line_profiler/explicit_profiler.py by tools/extract.py — regenerated on every run. -/',
+           'namespace LPVerif.Generated', '']
+    falsy = literal_of('line_profiler/explicit_profiler.py', '_FALSY_STRINGS')
+    out.append('/-- explicit_profiler.py: `_FALSY_STRINGS` (sorted) -/')
+    out.append('def falsyStrings : List String := [%s]' % ', '.join(lean_str(x) for x in sorted(falsy or [])))
+    out.append('')
+    out.append('end LPVerif.Generated')
+    return '\n'.join(out) + '\n'
+
+
+GENERATORS = [('PreParse.lean', gen_pre_parse), ('RelImport.lean', gen_get_module),
+              ('KernprofOptions.lean', gen_kernprof_options), ('ExplicitTables.lean', gen_explicit_tables)]
 
 
 def regenerate(log=None):
@@ -11,7 +305,10 @@ def regenerate(log=None):
     changed = []
     os.makedirs(GEN_DIR, exist_ok=True)
     for fname, fn in GENERATORS:
-        text = fn()
+        try:
+            text = fn()
+        except Exception as e:   # the source no longer parses the way the translator expects
+            text = ('/- translator failure: %s -/\n#eval (show Nat from "translator failed")\n' % str(e).replace('-/', '- /'))
         p = os.path.join(GEN_DIR, fname)
         old = open(p).read() if os.path.exists(p) else None
         if old != text:
@@ -19,3 +316,7 @@ def regenerate(log=None):
                 fh.write(text)
             changed.append(fname)
     return changed
+
+
+if __name__ == '__main__':
+    print(regenerate(print))
